@@ -14,6 +14,8 @@ THEOREMS = [
     "C22_source_shape",
     "C22_mutual_exclusion",
     "C22_cached_created_once",
+    "C22_created_once_per_invocation",
+    "C22_value_independent",
     "C22_cached_same_object",
     "C22_scope_isolation",
     "C22_injected_by_factory",
@@ -41,14 +43,20 @@ EXPLANATION = (
     "to one of its members and the requested resource is not well-founded; an invocation that completes has only "
     "well-founded requests; a raising factory is the only other failure; every await-free section of a resolution ends "
     "after finitely many micro-steps on every graph (lexicographic measure: scoped cache, stack, dependencies left). "
-    "The same statements for serial schedules of "
+    "Factories carry the value they return (object, None, 0, '', [], False): a factory returns at most once per "
+    "invocation (C22_created_once_per_invocation) and no transition reads the value (C22_value_independent: the runs "
+    "of a graph and of the same graph with all values replaced by ordinary objects are equal), so a stored falsy "
+    "value is a cache hit like any other. The same statements for serial schedules of "
     "the unlocked code (C22_sequential), and three refutations of the unlocked code by concrete interleavings (false "
     "cycle error, non-cached object shared by two invocations, stale scoped value after a bare get). C22_concurrent "
     "is stated for the configuration regenerated from the sources, so it only checks on a tree with exclusive scopes. "
     "Tie: statement shapes of _get/get/resolution_scope/_Resource.call/partial regenerated from /repo "
     "(C22_source_shape); op-by-op correspondence of the real partial()/ResourceManager.get on random graphs and "
     "scripted schedules against the model driver (events with identities, _resolving, depth, caches, lock, task "
-    "phases), and of real workflows with concurrent worker steps. Search: monitors on the real code alone."
+    "phases; injected values rendered as the serial of their creation or, for interned values, as the value), and of "
+    "real workflows with concurrent worker steps. Search: monitors on the real code alone -- identities of injected "
+    "objects where creations are distinguishable, and factory-return counts per manager / per invocation (for "
+    "back-to-back invocations the exact count recomputed from the graph) whatever the value."
 )
 LEVEL_TEXT = "proof (all graphs, all interleavings of any number of tasks) + correspondence + implementation-side monitors"
 ASSUMPTIONS = [
@@ -159,6 +167,12 @@ def gen_graph(rng: random.Random, maxn: int = 6) -> tuple[list[dict], str]:
         x = rng.randrange(n)
         g[x]["d"] = g[x]["d"] + [x]
         rng.shuffle(g[x]["d"])
+    # what the factories return: mostly ordinary objects; in some graphs some or all factories return a
+    # falsy value (None: an optional client that is not configured; 0, "", [], False) -- a legal resource value
+    p_falsy = rng.choice([0.0, 0.0, 0.0, 0.25, 0.5, 1.0])
+    for r in g:
+        if rng.random() < p_falsy:
+            r["v"] = rng.choice([1, 1, 1, 2, 3, 4, 5])
     return g, kind
 
 
@@ -216,11 +230,49 @@ class Chooser:
 # (S) monitors: the property on the real code's observable behaviour alone
 
 
-def _int(x: str) -> Any:
+def _int(x: Any) -> Any:
     try:
         return int(x)
-    except ValueError:
-        return None  # not one of our objects (the monitor reports it as a wrong object)
+    except (ValueError, TypeError):
+        return x  # a value token (N, Z, E, F) or "?" (not one of our objects)
+
+
+def expected_creations(g: list[dict], reqs: list[int], created: set[int]) -> tuple[dict[int, int], str | None]:
+    """Independent oracle, from the graph alone: how often each factory has to return while ONE invocation
+    resolves `reqs` in order, given the cached resources `created` earlier in this manager's life.  Depth-first
+    in signature order; a resource is created when first needed and then served from the manager-wide cache
+    (cached) or from the values of this resolution (non-cached), WHATEVER its value is.  Returns (counts, None)
+    for a resolution that completes, (counts so far, "failed:r" | "cycle") when it must stop."""
+    counts: dict[int, int] = {}
+    scope: set[int] = set()
+    stack: list[int] = []
+
+    def get(x: int) -> str | None:
+        if x in stack:
+            return "cycle"
+        if (g[x]["c"] and x in created) or x in scope:
+            return None
+        stack.append(x)
+        try:
+            for d in g[x]["d"]:
+                e = get(d)
+                if e is not None:
+                    return e
+            if g[x]["f"]:
+                return f"failed:{x}"
+            counts[x] = counts.get(x, 0) + 1
+            scope.add(x)
+            if g[x]["c"]:
+                created.add(x)
+            return None
+        finally:
+            stack.pop()
+
+    for r in reqs:
+        e = get(r)
+        if e is not None:
+            return counts, e
+    return counts, None
 
 
 def parse_events(events: list[str]) -> list[tuple]:
@@ -267,16 +319,44 @@ def monitor(g: list[dict], info: dict, all_opened: bool, final_state: str | None
                 res.append(("C22/wrong_arguments", f"task {t} requested {rec['reqs']} and got {len(rec['objs'])} objects"))
             for r, s in zip(rec["reqs"], rec["objs"]):
                 inj.append((t, r, s))
+    def vtag(r: int) -> str:
+        # classifying fact: the value the factory of r returns, when it is not an ordinary object
+        k = RL.vkind(g[r])
+        return f"[value={RL.VAL_NAMES.get(k, k)}]" if k else ""
+
     for t, r, s in inj:
-        if s is None or serial_rid.get(s) != r:
-            res.append(("C22/wrong_object", f"task {t} was handed object #{s} (made by r{serial_rid.get(s)}) for resource r{r}"))
+        k = RL.vkind(g[r])
+        if k not in RL.FRESH_KINDS:
+            # an interned value: all there is to see is the value itself and that some factory call produced it
+            if s != RL.VAL_TOKEN.get(k):
+                res.append(("C22/wrong_object", f"task {t} was handed {s!r} for resource r{r} whose factory returns {RL.VAL_NAMES.get(k, k)}"))
+            elif not made.get(r):
+                res.append(("C22/wrong_object", f"task {t} was handed a value for r{r} whose factory never returned"))
+        elif not isinstance(s, int) or serial_rid.get(s) != r:
+            res.append(("C22/wrong_object", f"task {t} was handed object #{s} (made by r{serial_rid.get(s) if isinstance(s, int) else None}) for resource r{r}"))
         elif not any(s == s2 for _t, s2 in made.get(r, [])):
             res.append(("C22/wrong_object", f"task {t} was handed object #{s} of r{r} whose factory never returned"))
+    # creation counts (factory invocations that returned), whatever the value: the only observable of the
+    # caching clauses when the value is an interned singleton
+    made_by: dict[tuple[int, int], list[int]] = {}
+    for r, l in made.items():
+        for t, s in l:
+            made_by.setdefault((t, r), []).append(s)
+    for (t, r), l in sorted(made_by.items()):
+        if not g[r]["c"] and len(l) > 1:
+            res.append((f"C22/noncached_created_twice_in_scope{tag}{vtag(r)}",
+                        f"invocation {t} created non-cached r{r} {len(l)} times (objects {l}) inside one dependency resolution"))
+    for t, r in sorted({(t, r) for t, r, _s in inj}):
+        if not g[r]["c"] and (t, r) not in made_by:
+            res.append((f"C22/noncached_not_fresh{tag}{vtag(r)}",
+                        f"invocation {t} was handed non-cached r{r} but its factory did not run for this invocation"))
     for r in range(n):
-        mine = [(t, s) for t, r2, s in inj if r2 == r]
+        # identity of what was injected: only where creations are distinguishable (an interned value is the same
+        # object whoever created it; its creations are counted above)
+        mine = [(t, s) for t, r2, s in inj if r2 == r] if RL.vkind(g[r]) in RL.FRESH_KINDS else []
         if g[r]["c"]:
             if len(made.get(r, [])) > 1:
-                res.append((f"C22/cached_created_twice{tag}", f"cached r{r} was created {len(made[r])} times: {made[r]}"))
+                res.append((f"C22/cached_created_twice{tag}{vtag(r)}", f"cached r{r} was created {len(made[r])} times: {made[r]}"))
             if len({s for _t, s in mine}) > 1:
                 res.append((f"C22/cached_identity_differs{tag}", f"cached r{r} was injected as different objects {sorted({s for _t, s in mine})}"))
         else:
@@ -292,6 +372,22 @@ def monitor(g: list[dict], info: dict, all_opened: bool, final_state: str | None
             for s, ts in owners.items():
                 if len(ts) > 1:
                     res.append((f"C22/noncached_leaks_across_scopes{tag}", f"non-cached r{r} object #{s} was injected into invocations {sorted(ts)}"))
+    if not overlapped:
+        # invocations ran one after another: the exact number of creations per invocation follows from the graph
+        created: set[int] = set()
+        for t, rec in enumerate(info["tasks"]):
+            if rec["outcome"] is None or rec["outcome"] == "cancelled" or any(not 0 <= r < n for r in rec["reqs"]):
+                break
+            exp, _stop = expected_creations(g, rec["reqs"], created)
+            act = {r: len(l) for (t2, r), l in made_by.items() if t2 == t}
+            bad = [r for r in sorted(set(act) | set(exp)) if act.get(r, 0) != exp.get(r, 0)]
+            if bad:
+                r = bad[0]
+                res.append((f"C22/creation_count[{'cached' if g[r]['c'] else 'noncached'},"
+                            f"{'more' if act.get(r, 0) > exp.get(r, 0) else 'fewer'}]{tag}{vtag(r)}",
+                            f"invocation {t} requesting {rec['reqs']} created r{r} {act.get(r, 0)} times; the graph "
+                            f"(cached resources already created: {sorted(created - set(exp))}) requires {exp.get(r, 0)}"))
+                break
     any_fail = any(r["f"] for r in g)
     for t, rec in enumerate(info["tasks"]):
         o = rec["outcome"]
@@ -341,6 +437,17 @@ def overlapped(lines: list[str]) -> bool:
 # one direct case: real partial()/get vs model + monitors
 
 
+def count_values(out: Outcome, label: str, g: list[dict]) -> None:
+    kinds = {RL.vkind(r) for r in g if not r["f"]}
+    if kinds - {0}:
+        out.count(f"{label}:graph-with-a-falsy-valued-factory")
+        for k in sorted(kinds - {0}):
+            out.count(f"{label}:value:{RL.VAL_NAMES.get(k, k)}")
+        if any(RL.vkind(r) and sum(1 for q in g if i in q["d"]) + sum(q["d"].count(i) > 1 for q in g) >= 2
+               for i, r in enumerate(g)):
+            out.count(f"{label}:falsy-valued-resource-with-two-consumers")
+
+
 def run_cases(cases: list[dict], cfg: dict, out: Outcome, label: str) -> None:
     """Real runs of every case, one batched model run, per-case diff + monitors."""
     real: list[tuple[dict, list[str], dict]] = []
@@ -369,6 +476,7 @@ def run_cases(cases: list[dict], cfg: dict, out: Outcome, label: str) -> None:
         out.count(f"{label}:graph:{case.get('shape', '?')}")
         if info["overlapped"]:
             out.count(f"{label}:overlapping")
+        count_values(out, label, g)
         for rec in info["tasks"]:
             o = rec["outcome"]
             out.count(f"{label}:outcome:" + ("pending" if o is None else o.split(":")[0]))
@@ -429,6 +537,7 @@ def run_wf_cases(cases: list[dict], cfg: dict, out: Outcome) -> None:
         out.count("workflow:invocations", len(info["tasks"]))
         if info["overlapped"]:
             out.count("workflow:overlapping")
+        count_values(out, "workflow", g)
         out.count("workflow:result:" + info["result"].split(":")[0])
         out.nontrivial(("wf", g, case["workers"], ops))
         out.sample({"graph": RL.graph_line(g), "workers": case["workers"], "ops": [RL.op_line(o) for o in ops][:8],
@@ -524,7 +633,8 @@ def run_any(case: dict, cfg: dict, out: Outcome, label: str) -> None:
 
 def run(env: Env) -> Outcome:
     out = Outcome()
-    out.rule = ("random dependency graphs (1-6 resources; dag/diamond/cycle/self-cycle/dense; cached, async, raising mixes) "
+    out.rule = ("random dependency graphs (1-6 resources; dag/diamond/cycle/self-cycle/dense; cached, async, raising mixes; "
+                "factories returning an object or, in half of the graphs, None/0/''/[]/False) "
                 "x adaptive schedules of 1-4 invocations (real partial() or bare get) opening gates at quiescent points; "
                 "real workflows with concurrent worker steps; non-trivial = at least two invocations or a dependency edge; "
                 "distinct by (graph, op list)")
